@@ -1354,6 +1354,25 @@ pub fn run(args: &Args) {
 			emit_parse(&mut out, &t, &e, "nesting", true);
 		}
 	}
+	// tricky lexical prefix + k nested source lists around the limit: the quote/escape tracking of the nesting
+	// guard must agree with the lexer for every prefix (a guard that loses track of the quotes is bypassed)
+	{
+		let values: &[&str] = &[
+			"\"C:\\\\\"", "\"\\\"\"", "\"\\\\\\\"\"", "\"[[[\"", "\"]]]\"", "\"\"", "\"a\\\"[\\\"b\"", "\"\\\\\\\\\"", "\"x\\\\\" y=\"[\"",
+			"\"\\\\\" y=\"\\\"\" z=\"]\"", "\"\\n\\t\\\\\"", "[\"\\\\\",\"[\"]", "\"\\\\\\\\\\\"[\"", "plain",
+		];
+		for v in values {
+			for k in [1usize, 63, 64, 65, 66] {
+				let body = format!("{}b{}", "a [".repeat(k), "]".repeat(k));
+				let open = format!("{}b", "a [".repeat(k));
+				for t in [format!("p x={v} | {body}"), format!("p x={v} [{body}]"), format!("p x={v} | {open}"), format!("{body} | p x={v}")] {
+					let e = ref_parse(&t);
+					out.count(if e == "err" { "lexprefix_err" } else { "lexprefix_ok" });
+					emit_parse(&mut out, &t, &e, "lexical-prefix", true);
+				}
+			}
+		}
+	}
 	// nesting far beyond the limit (child process: before fix be686a0f the recursive parser exhausted the stack)
 	for (n, open) in [(64, false), (64, true), (65, false), (1000, false), (1000, true), (100000, false), (100000, true)] {
 		deep_probe(&mut out, &dir, n, open);
